@@ -98,6 +98,28 @@ class Explorer:
                         s2 = self.branch(ctx, blk, idx, s)
                         if s2 is None:
                             continue
+                        # a branch on a bool local initialised right before it (`const bool c = <expr>; if (c)`)
+                        # also tells the rule what <expr> says on that edge
+                        if len(blk.succ) == 2:
+                            alts = implied_conditions(f, blk, idx == 0)
+                            if alts:
+                                outs = []
+                                for alt in alts:
+                                    s3 = s2
+                                    for (node, truth) in alt:
+                                        syn = _SynthBlock(blk, node, tgt)
+                                        s3 = self.branch(ctx, syn, 0 if truth else 1, s3)
+                                        if s3 is None:
+                                            break
+                                    if s3 is not None:
+                                        outs.append(s3)
+                                for s3 in outs:
+                                    k2 = (tgt, s3)
+                                    if k2 not in seen:
+                                        seen.add(k2)
+                                        self.parent[k2] = key
+                                        work.append(k2)
+                                continue
                     k2 = (tgt, s2)
                     if k2 not in seen:
                         seen.add(k2)
@@ -140,6 +162,88 @@ class Explorer:
         if len(hops) > limit:
             hops = hops[:limit // 2] + ['...'] + hops[-limit // 2:]
         return hops
+
+
+class _SynthBlock:
+    """A two-way branch on `node` that stands for what a bool local's initialiser says on an edge."""
+    def __init__(self, blk, node, tgt):
+        self.id = ('syn', blk.id, id(node))
+        self.term = {'k': 'IfStmt', 'cond': node, 'loc': (blk.term or {}).get('loc')}
+        self.succ = [tgt, tgt]
+        self.elems = []
+        self.raw = {}
+
+
+def implied_conditions(f, blk, taken_true):
+    """Alternatives [[(condition node, truth), ...], ...] (a disjunction of conjunctions) implied on the true/false
+    edge of blk when its condition is a bool local that was declared with an initialiser immediately before the branch
+    (same block, nothing but the condition's own sub-expressions in between) and is assigned nowhere else.
+    `a && b` true = [a, b]; false = [!a] or [a, !b]; `a || b` dually; everything else is an atom.  [] = nothing."""
+    cache = f.__dict__.setdefault('_implied_cache', {})
+    key = (blk.id, taken_true)
+    if key in cache:
+        return cache[key]
+    out = []
+    t = blk.term
+    if t and 'cond' in t and len(blk.succ) == 2:
+        c = f.strip(f.node(t['cond']), casts=True)
+        truth = taken_true
+        while c is not None and c['k'] == 'UnaryOperator' and c.get('op') == '!':
+            truth = not truth
+            c = f.strip(f.ch(c)[0], casts=True)
+        if c is not None and c['k'] == 'DeclRefExpr' and c.get('dk') == 'var' and \
+                (c.get('ty') or '').replace('const ', '').strip() == 'bool':
+            init = _adjacent_init(f, blk, c['id'])
+            if init is not None:
+                out = _dnf(f, init, truth, 0)
+                if len(out) > 8:
+                    out = []
+    cache[key] = out
+    return out
+
+
+def _dnf(f, n, truth, depth):
+    n = f.strip(n, casts=True)
+    if n is None or depth > 6:
+        return [[]]
+    if n['k'] == 'InitListExpr' and len(f.ch(n)) == 1:
+        return _dnf(f, f.ch(n)[0], truth, depth + 1)
+    if n['k'] == 'UnaryOperator' and n.get('op') == '!':
+        return _dnf(f, f.ch(n)[0], not truth, depth + 1)
+    if n['k'] == 'BinaryOperator' and n.get('op') in ('&&', '||'):
+        conj = (n['op'] == '&&') == truth     # a&&b true, a||b false: both operands take `truth`
+        A = _dnf(f, f.ch(n)[0], truth, depth + 1)
+        B = _dnf(f, f.ch(n)[1], truth, depth + 1)
+        if conj:
+            return [x + y for x in A for y in B]
+        # short-circuit order: first operand decides, or it does not and the second decides
+        nA = _dnf(f, f.ch(n)[0], not truth, depth + 1)
+        return A + [x + y for x in nA for y in B]
+    return [[(n, truth)]]
+
+
+def _adjacent_init(f, blk, var):
+    pos = None
+    for i, e in enumerate(blk.elems):
+        n = f.node(e)
+        if n['k'] == 'DeclStmt' and any(v['id'] == var and 'init' in v for v in n.get('vars', [])):
+            pos = i
+            init = [v for v in n['vars'] if v['id'] == var][0]['init']
+    if pos is None:
+        return None
+    for e in blk.elems[pos + 1:]:
+        n = f.node(e)
+        if n['k'] not in ('DeclRefExpr', 'ImplicitCastExpr', 'UnaryOperator', 'ParenExpr'):
+            return None
+        if n['k'] == 'DeclRefExpr' and n.get('id') != var:
+            return None
+    # assigned nowhere else
+    for n in f.all_nodes():
+        if n['k'] == 'BinaryOperator' and n.get('op') in ('=', '|=', '&=', '^='):
+            l = f.strip(f.ch(n)[0], casts=True)
+            if l is not None and l['k'] == 'DeclRefExpr' and l.get('id') == var:
+                return None
+    return f.node(init)
 
 
 def _is_state(x):
